@@ -1,0 +1,27 @@
+//go:build verif
+
+// Contracts for package core, checked by /verif/govc (comment-only; not part of any normal build).
+
+package core
+
+//@ func isReserved
+//@   prop C20 C19
+//@   pure
+//@   safety
+//@   requires URL != nil
+
+//@ func ParsePublicURLWithScheme
+//@   prop C20
+//@   modifies nothing
+//@   ensures [value-iff-ok] isNilIface(result.1) <==> result.0 != nil
+//@   ensures [scheme-host] isNilIface(result.1) ==> result.0.Scheme != "" && result.0.Hostname() != ""
+//@   ensures [scheme-allowed] isNilIface(result.1) && len(allowedSchemes) > 0 ==> slices.Contains(allowedSchemes, result.0.Scheme)
+//@   ensures [no-ip] isNilIface(result.1) && !allowReserved ==> net.ParseIP(result.0.Hostname()) == nil
+//@   ensures [not-reserved] isNilIface(result.1) && !allowReserved ==> !isReserved(result.0)
+
+//@ func ParsePublicURL
+//@   prop C20
+//@   ensures [strict-https] strictmode && isNilIface(result.1) ==> result.0 != nil && result.0.Scheme == "https"
+//@   ensures [strict-no-ip] strictmode && isNilIface(result.1) ==> net.ParseIP(result.0.Hostname()) == nil
+//@   ensures [strict-not-reserved] strictmode && isNilIface(result.1) ==> !isReserved(result.0)
+//@   ensures [lenient-accepts-same] !strictmode ==> did(call ParsePublicURLWithScheme #1) && arg(call ParsePublicURLWithScheme #1, 1) == true
